@@ -17,7 +17,7 @@ Local Open Scope Z_scope.
 
 (* ---------- C string helpers ---------- *)
 (* strncmp(x, lit, n) == 0 on NUL-free lists: the end of a list is the terminating NUL *)
-Fixpoint strncmp_eq (x lit : list Z) (n : nat) : bool :=
+Fixpoint strncmp_eq (x lit : list Z) (n : nat) {struct n} : bool :=
   match n with
   | O => true
   | S m =>
@@ -53,20 +53,23 @@ Definition value_base (base : Z) (ds : list Z) : Z := fold_left (fun a c => a * 
 (* the subject sequence: s = ws ++ sign ++ prefix ++ digits ++ rest *)
 Record scan := mkscan { sc_ws : list Z; sc_sign : list Z; sc_pre : list Z; sc_ds : list Z; sc_rest : list Z }.
 
+Definition sign_split (s : list Z) : list Z * list Z :=
+  match s with
+  | c :: r => if (c =? 45) || (c =? 43) then ([c], r) else ([], s)
+  | [] => ([], s)
+  end.
+(* "0x" / "0X" is part of the subject sequence only for base 16 and only if a hexadecimal digit follows *)
+Definition prefix_split (base : Z) (s : list Z) : list Z * list Z :=
+  match s with
+  | z :: x :: h :: r =>
+      if (base =? 16) && (z =? 48) && ((x =? 120) || (x =? 88)) && is_bdigit 16 h then ([z; x], h :: r) else ([], s)
+  | _ => ([], s)
+  end.
+
 Definition scan_num (base : Z) (s : list Z) : scan :=
-  let ws := take_while is_space s in
-  let s1 := drop_while is_space s in
-  let '(sg, s2) := match s1 with
-                   | c :: r => if (c =? 45) || (c =? 43) then ([c], r) else ([], s1)
-                   | [] => ([], s1)
-                   end in
-  let '(pre, s3) := match s2 with
-                    | z :: x :: h :: r =>
-                        if (base =? 16) && (z =? 48) && ((x =? 120) || (x =? 88)) && is_bdigit 16 h
-                        then ([z; x], h :: r) else ([], s2)
-                    | _ => ([], s2)
-                    end in
-  mkscan ws sg pre (take_while (is_bdigit base) s3) (drop_while (is_bdigit base) s3).
+  let sp := sign_split (drop_while is_space s) in
+  let pp := prefix_split base (snd sp) in
+  mkscan (take_while is_space s) (fst sp) (fst pp) (take_while (is_bdigit base) (snd pp)) (drop_while (is_bdigit base) (snd pp)).
 
 Definition sc_neg (k : scan) : bool := match sc_sign k with c :: _ => c =? 45 | [] => false end.
 Definition sc_len (k : scan) : nat :=
